@@ -202,7 +202,9 @@ pub fn decode_stream(data: &[u8]) -> stream::SCase {
     let mode = r.u8();
     let gzip = if mode % 3 == 0 { Some(1 + (mode as u32 / 3) % 9) } else { None };
     let chunks: &[usize] = if gzip.is_some() { stream::GZ_CHUNKS } else { stream::RAW_CHUNKS };
-    let chunk = chunks[r.pick(chunks.len())];
+    const MORE_CHUNKS: &[usize] = &[5, 6, 8, 9, 12, 15, 16, 17, 31, 32, 33, 63, 65, 100, 127, 128, 129, 255, 256, 257, 999, 1000, 1023, 1024, 1025, 1499, 1500, 1501, 2047, 2048, 2049, 3000, 4095, 4097, 5000, 8191, 8192, 10_000];
+    let ci = r.u8() as usize;
+    let chunk = if ci < 128 { chunks[ci % chunks.len()] } else { MORE_CHUNKS[(ci - 128) % MORE_CHUNKS.len()] };
     let payload = [Payload::Hash, Payload::Runs, Payload::Mixed, Payload::Zeros][r.pick(4)];
     let extra_polls = r.pick(5);
     let mut ops = Vec::new();
